@@ -7,7 +7,8 @@ x[i] FALSE
 The progressions are the items of aps(N, k): the sequence `_vdw_ap_generator(N, k)` yields.  That generator is PROVED in graphs_dag.py
 (every yield is a progression of length k inside 1..N, starts and differences exactly the valid ones, none missing); its value at
 the two call sites here is that sequence (`value_form`: the correspondence between the yield clauses and the sequence is by reading).
-More than two colours (a two-dimensional block, one clause group per colour): bounded tier.
+THREE colours (variant `three`): x[i,c] = "i has colour c"; every number has exactly one colour, and for each colour c no progression of
+length k_c is entirely of colour c.  More than three colours: bounded tier.
 ASSUMED: block allocation / call contract (C11), the interface meaning of add_clause (C04).
 """
 R = 'cnfgen/families/ramsey.py'
@@ -16,7 +17,8 @@ F_ = 'cnfgen/formula/cnf.py'
 CLASSMODELS = {
     'FormulaW': {'file': F_, 'real': 'CNF', 'fields': {'store': 'mclist', '_numvar': 'int', 'cls': 'int'}},
 }
-XB = 'created("Block1", 0)'
+XB = 'created("BlockW", 0)'
+CLASSMODELS['BlockW'] = {'file': 'cnfgen/formula/variables.py', 'real': 'BlockOfVariables', 'fields': {'off': 'int', 'n': 'int', 'n2': 'int', 'dims': 'int'}}
 FR = {'modifies_objects': ['vdw'], 'modifies_fields': {'vdw': ['store', '_numvar']}}
 KEEP = ['vdw._numvar == N', 'N >= 0', 'k1 >= 1', 'k2 >= 1']
 
@@ -27,14 +29,29 @@ def some(k, j, neg=False):
 
 
 CONTRACTS = {
-    ('cnfgen/localtypes.py', 'positive_int_seq'): {'assumed': 'argument check of the extra progression lengths (none here)', 'params': {'S': 'any', 'name': 'any'}},
+    ('cnfgen/localtypes.py', 'positive_int_seq'): {'assumed': 'argument check of the extra progression lengths: refused iff one of them is not positive',
+                                                   'params': {'name': 'any'}, 'supports': ['len(value) <= 1'],
+                                                   'raises': {'ValueError': 'not implies(len(value) == 1, value[0] >= 1)'}},
     (F_, 'FormulaW.__init__'): {'assumed': 'formula_class(description=...) builds an empty formula of that class', 'params': {'description': 'any'},
                                 'modifies': ['self.store', 'self._numvar'], 'ensures': ['self.store == cnil', 'self._numvar == 0']},
     (F_, 'FormulaW.new_block'): {
-        'assumed': 'group allocation (C11): a one-dimensional block of fresh variables',
-        'params': {'label': 'any'}, 'supports': ['len(ranges) == 1'], 'requires': ['ranges[0] >= 0'],
-        'modifies': ['self._numvar'], 'returns': 'obj:Block1',
-        'ensures': ['result.off == old(self._numvar)', 'result.n == ranges[0]', 'self._numvar == old(self._numvar) + ranges[0]']},
+        'assumed': 'group allocation (C11): a block of fresh variables with one or two dimensions',
+        'params': {'label': 'any'}, 'supports': ['len(ranges) == 1 or len(ranges) == 2'], 'requires': ['ranges[0] >= 0', 'ranges[len(ranges) - 1] >= 0'],
+        'modifies': ['self._numvar'], 'returns': 'obj:BlockW',
+        'ensures': ['result.off == old(self._numvar)', 'result.n == ranges[0]', 'result.dims == len(ranges)',
+                    'result.n2 == ite(len(ranges) == 2, ranges[len(ranges) - 1], 1)',
+                    'self._numvar == old(self._numvar) + ranges[0] * ite(len(ranges) == 2, ranges[len(ranges) - 1], 1)']},
+    ('cnfgen/formula/variables.py', 'BlockW.__call__'): {
+        'assumed': 'block call contract (C11): x(i) = offset + i;  x(i, c) = offset + (i-1)*n2 + c;  x(i, None) = the n2 variables of row i, in order',
+        'params': {}, 'supports': ['len(index) == self.dims', 'index[0] is not None'],
+        'requires': ['1 <= index[0]', 'index[0] <= self.n', 'implies(len(index) == 2 and index[len(index) - 1] is not None, 1 <= index[len(index) - 1] and index[len(index) - 1] <= self.n2)'],
+        'returns_expr': 'blockcall(self.off, self.n2, index)'},
+    (F_, 'FormulaW.cardinality_eq'): {
+        'assumed': 'interface meaning of cardinality_eq (C04)',
+        'params': {'lits': 'iseq', 'value': 'int', 'check': 'bool'}, 'ghost_params': {'a': 'asg'},
+        'raises': {'ValueError': 'check and haszero(lits)'}, 'modifies': ['self.store', 'self._numvar'],
+        'ensures': ['sat(a, self.store) == (sat(a, old(self.store)) and count(a, lits) == value)',
+                    'self._numvar == ite(check, zmax(old(self._numvar), maxabs(lits)), old(self._numvar))']},
     (F_, 'FormulaW.add_clause'): {
         'assumed': 'interface meaning of add_clause (C04)',
         'params': {'clause': 'iseq', 'check': 'bool'}, 'ghost_params': {'a': 'asg'},
@@ -56,6 +73,39 @@ CONTRACTS = {
             'sat(a, result.store) == (forall(lambda j: implies(0 <= j and j < clen(aps(N, k1)), {})) and '
             'forall(lambda j: implies(0 <= j and j < clen(aps(N, k2)), {})))'.format(some('k1', 'j'), some('k2', 'j', True)),
             'result._numvar == N', 'result.cls == formula_class',
+        ],
+    },
+}
+
+
+# ---- three colours ----------------------------------------------------------------------------------------------------------------------
+ROW = 'count(a, apseq({x}.off + (({i}) - 1) * 3 + 1, 3)) == 1'.format(x=XB, i='{i}')
+
+
+def cl3(c, k, j):
+    ap = 'cget(aps(N, {}), {})'.format(k, j)
+    return 'count(a, iofarr(lam1(lambda t: -blockcall({x}.off, 3, (iget({ap}, t), {c}))), ilen({ap}))) >= 1'.format(x=XB, ap=ap, c=c)
+
+
+KEEP3 = ['vdw._numvar == 3 * N', 'N >= 0', 'k1 >= 1', 'k2 >= 1', 'ks[0] >= 1']
+_V = CONTRACTS[(R, 'VanDerWaerden')]
+_V['variants'] = {
+    'two': {},
+    'three': {
+        'params': {'ks': 'tuple:int'},
+        'raises': {'ValueError': 'N < 0 or k1 < 1 or k2 < 1 or ks[0] < 1'},
+        'loops': {
+            2: dict(FR, ghost_at_entry={'S2': 'vdw.store'},
+                    inv=KEEP3 + ['sat(a, vdw.store) == (sat(a, S2) and forall(lambda i: implies(1 <= i and i <= _it, {})))'.format(ROW.format(i='i'))]),
+            4: dict(FR, ghost_at_entry={'S4': 'vdw.store'},
+                    inv=KEEP3 + ['sat(a, vdw.store) == (sat(a, S4) and forall(lambda j: implies(0 <= j and j < _it, {})))'.format(cl3('c', 'K[c - 1]', 'j'))]),
+        },
+        'ensures!': [
+            'sat(a, result.store) == (forall(lambda i: implies(1 <= i and i <= N, {row})) and '
+            'forall(lambda j: implies(0 <= j and j < clen(aps(N, k1)), {c1})) and forall(lambda j: implies(0 <= j and j < clen(aps(N, k2)), {c2})) and '
+            'forall(lambda j: implies(0 <= j and j < clen(aps(N, ks[0])), {c3})))'.format(
+                row=ROW.format(i='i'), c1=cl3(1, 'k1', 'j'), c2=cl3(2, 'k2', 'j'), c3=cl3(3, 'ks[0]', 'j')),
+            'result._numvar == 3 * N', 'result.cls == formula_class',
         ],
     },
 }
